@@ -25,16 +25,26 @@ PROFILES = [
     ('pkg',       4, dict(reexport=0.9, roots=(1, 2), private_mods=0.8, star=0.3)),
     ('consumers', 4, dict(reexport=0.9, roots=(2, 3), consumer_roots=True, private_mods=0.8, star=0.3)),
     ('nested',    2, dict(reexport=0.9, roots=(1, 3), nested=0.6, subpkg=0.8, relative=0.8)),
+    ('cyclic-bottom', 3, dict(reexport=0.9, roots=(1, 2), cyclic=True, back_edge_bottom=True, imports_last=True, star=0.3,
+                              private_mods=0.8, class_imports=0.0, tc_guard=0.0)),
     ('rebind',    3, dict(reexport=0.9, roots=(1, 2), rebind_same=0.6, star=0.6, imports=(1, 4), private_mods=0.8)),
 ]
 
 
 def world_ok(world: Dict[str, Any]) -> bool:
     t = world['truth']
-    return not t['cyclic'] and not t['exotic'] and any(t['reexporters'].values())
+    if t['cyclic'] and not world['profile'].get('imports_last'):
+        return False
+    return not t['exotic'] and any(t['reexporters'].values())
 
 
 def oracle(world: Dict[str, Any], system: Any) -> List[Any]:
+    if world['truth']['cyclic']:
+        # import cycles in projects where every module defines first and imports last: whichever module is entered
+        # first, a module that is read while half built has already defined everything it defines itself, so a *direct*
+        # re-export (from the defining module) finds its object in every order and the location rule applies unchanged.
+        # (References are not judged here: binding truth is only recorded for acyclic worlds.)
+        return oracles.check_reexports(world, system)
     return oracles.check_reexports(world, system) + oracles.check_references(world, system)
 
 
